@@ -95,19 +95,75 @@ struct Matrix {
     transcript: String,
 }
 
-fn run_matrix(seed: u64, auth_on: bool) -> Matrix {
+/// the authentication settings of a case: (enabled, user, password)
+fn creds_of(variant: u64) -> (bool, Option<&'static str>, Option<&'static str>) {
+    match variant {
+        0 => (true, Some(USER), Some(PASS)),
+        // blank credentials are still credentials: `Basic Og==` is the only header that passes
+        1 => (true, Some(""), Some("")),
+        2 => (false, None, None),
+        3 => (true, Some(USER), Some("")),
+        4 => (true, Some(""), Some(PASS)),
+        5 => (true, Some(USER), Some("pa:ss:w rd")),
+        // disabled, with credentials lying around in the configuration
+        6 => (false, Some(USER), Some(PASS)),
+        _ => (true, Some(USER), Some(PASS)),
+    }
+}
+
+/// authentication enabled with a credential missing: the server must not come up (it would serve everybody or nobody)
+fn run_inconsistent(seed: u64) -> Matrix {
+    let mut stats = Stats::default();
+    let mut tr = String::new();
+    let mut rng = Rng::new(seed);
+    let network = *rng.pick(&["signet", "regtest", "mainnet"]);
+    for (user, pass) in [(None, None), (Some(USER), None), (None, Some(PASS))] {
+        let dir = fresh_dir("c12");
+        let dirs = dir.to_string_lossy().to_string();
+        let started = Server::start_with(network, false, &dirs, true, user, pass);
+        stats.bump("inconsistent_configurations_started");
+        stats.bump("http_requests");
+        let mut violation = None;
+        match started {
+            Err(_) => tr.push('X'),
+            Ok(srv) => {
+                // it came up: then at least it must refuse an indexer method without a header
+                let mut c = Client::new(srv.port);
+                let r = c.call("brc20_mine", json!([1, 1_700_000_002u64]), None).unwrap_or(Value::Null);
+                tr.push_str(if is_401(&r) { "U" } else { "R" });
+                if !is_401(&r) {
+                    violation = Some(Violation::new(
+                        "protected-method-not-refused/credentials-missing-in-configuration",
+                        json!({"user_set": user.is_some(), "password_set": pass.is_some(), "resp": r}),
+                    ));
+                }
+                drop(c);
+                srv.stop();
+            }
+        }
+        let _ = std::fs::remove_dir_all(&dir);
+        if violation.is_some() {
+            return Matrix { stats, violation, transcript: tr };
+        }
+    }
+    Matrix { stats, violation: None, transcript: tr }
+}
+
+fn run_matrix(seed: u64, variant: u64) -> Matrix {
+    let (auth_on, cfg_user, cfg_pass) = creds_of(variant);
+    let (user, pass) = (cfg_user.unwrap_or(USER), cfg_pass.unwrap_or(PASS));
     let mut stats = Stats::default();
     let mut tr = String::new();
     let mut rng = Rng::new(seed);
     let dir = fresh_dir("c12");
     let dirs = dir.to_string_lossy().to_string();
     let network = *rng.pick(&["signet", "regtest", "mainnet"]);
-    let srv = match Server::start(network, false, &dirs, if auth_on { Some((USER, PASS)) } else { None }) {
+    let srv = match Server::start_with(network, false, &dirs, auth_on, cfg_user, cfg_pass) {
         Ok(s) => s,
         Err(e) => return Matrix { stats, violation: Some(Violation::new("harness/start-failed", json!({"error": e}))), transcript: tr },
     };
     let mut c = Client::new(srv.port);
-    let good = basic(USER, PASS);
+    let good = basic(user, pass);
     macro_rules! bail {
         ($class:expr, $detail:expr) => {{
             drop(c);
@@ -147,9 +203,10 @@ fn run_matrix(seed: u64, auth_on: bool) -> Matrix {
     let th = block["result"]["transactions"][0].as_str().unwrap_or(ZERO_HASH).to_string();
     let headers: Vec<(&str, Option<String>)> = vec![
         ("none", None),
-        ("wrong-user", Some(basic("intruder", PASS))),
-        ("wrong-password", Some(basic(USER, "guess"))),
-        ("malformed", Some(rng.pick(&["Basic", "Basic ====", "Bearer abc", "basic aW5kZXhlcjpzM2NyZXQtcGFzcw==", " ", "Basic aW5kZXhlcg=="]).to_string())),
+        ("wrong-user", Some(basic(if user == "intruder" { "other" } else { "intruder" }, pass))),
+        ("wrong-password", Some(basic(user, if pass.is_empty() { "guess" } else { &pass[..pass.len() - 1] }))),
+        // for non-blank credentials the blank pair `Basic Og==` is one more wrong header
+        ("malformed", Some(rng.pick(&["Basic", "Basic ====", "Bearer abc", "basic aW5kZXhlcjpzM2NyZXQtcGFzcw==", " ", "Basic aW5kZXhlcg==", if user.is_empty() && pass.is_empty() { "Basic" } else { "Basic Og==" }]).to_string())),
         ("correct", Some(good.clone())),
     ];
     let mut n = 0u64;
@@ -180,6 +237,7 @@ fn run_matrix(seed: u64, auth_on: bool) -> Matrix {
                     Err(e) => bail!("harness/http", json!({"error": e, "method": m})),
                 };
                 stats.bump(&format!("requests_{}_{}", if auth_on { "auth_on" } else { "auth_off" }, hname));
+                stats.bump(&format!("requests_credentials_variant_{variant}"));
                 stats.bump("http_requests");
                 let v = resp.json();
                 tr.push_str(&format!("{}{}", resp.status, if v.is_array() { "B" } else if is_401(&v) { "U" } else if v["error"].is_object() { "E" } else if v.is_null() { "-" } else { "R" }));
@@ -263,8 +321,8 @@ impl Prop for C12 {
     }
     fn runs(&self, tier: Tier) -> u64 {
         match tier {
-            Tier::Quick => 4,
-            Tier::Thorough => 32,
+            Tier::Quick => 8,
+            Tier::Thorough => 48,
         }
     }
     fn exhaustive(&self) -> bool {
@@ -277,13 +335,17 @@ impl Prop for C12 {
         400
     }
     fn generate(&self, seed: u64, _tier: Tier) -> Value {
-        json!({"seed": seed, "auth_on": seed % 4 != 3})
+        json!({"seed": seed, "variant": seed % 8})
+    }
+    /// every batch of 8 consecutive runs covers every configuration variant
+    fn case_for_run(&self, i: u64, seed: u64, _tier: Tier) -> Value {
+        json!({"seed": seed, "variant": i % 8})
     }
     fn shrink(&self, _case: &Value) -> Vec<Value> {
         vec![]
     }
     fn rule(&self) -> String {
-        "case = (seed, auth enabled?). The real start() serves on loopback; one synchronous HTTP/1.1 client enumerates every registered method x {single call, notification, batch element first / middle / last among permitted calls, batch element after / before an element that is not a request object} x {no header, wrong user, wrong password, malformed header, correct header}. For every request that is not authorised, a public state digest (height, latest block, raw block, next block, txpool, nonces of the indexer and of two senders, brc20_balance - which times out if a block was opened) is taken before and after: it must not change, protected methods must answer 401 per element, public methods and the permitted batch elements must keep working; every non-protected method is called with well-formed parameters, so a mutating method missing from the protected list shows up as a digest change. With the correct header, and with authentication disabled, no method may answer 401. The seed varies the network, the malformed header and the inscription ids. exhaustive over methods x shapes x headers; distinct = (seed, auth flag); non-trivial = the full matrix ran".into()
+        "case = (seed, authentication settings: enabled with ordinary / blank / half-blank / colon-containing credentials, disabled with and without credentials configured, enabled with a credential missing - then start() must refuse to come up). The real start() serves on loopback; one synchronous HTTP/1.1 client enumerates every registered method x {single call, notification, batch element first / middle / last among permitted calls, batch element after / before an element that is not a request object} x {no header, wrong user, wrong password, malformed header, correct header}. For every request that is not authorised, a public state digest (height, latest block, raw block, next block, txpool, nonces of the indexer and of two senders, brc20_balance - which times out if a block was opened) is taken before and after: it must not change, protected methods must answer 401 per element, public methods and the permitted batch elements must keep working; every non-protected method is called with well-formed parameters, so a mutating method missing from the protected list shows up as a digest change. With the correct header, and with authentication disabled, no method may answer 401. The seed varies the network, the malformed header and the inscription ids. exhaustive over methods x shapes x headers; distinct = (seed, settings variant); non-trivial = the full matrix ran".into()
     }
     fn assumptions(&self) -> Vec<String> {
         vec![
@@ -296,8 +358,8 @@ impl Prop for C12 {
     }
     fn execute(&self, case: &Value) -> RunOut {
         let seed = case["seed"].as_u64().unwrap_or(1);
-        let auth_on = case["auth_on"].as_bool().unwrap_or(true);
-        let m = run_matrix(seed, auth_on);
+        let variant = case["variant"].as_u64().unwrap_or(0);
+        let m = if variant == 7 { run_inconsistent(seed) } else { run_matrix(seed, variant) };
         RunOut {
             digest: sha_hex(&case.to_string()),
             nontrivial: m.violation.is_none(),
